@@ -30,6 +30,7 @@ type GenCfg struct {
 	MapBias      bool // prefer typed-map map calls
 	RetainDup    bool // retain lists with several, partly repeated, entries
 	NestedMaps   bool // allow map calls inside map-called pipelines (see DESIGN.md: known findings)
+	NestedArrayMaps bool // allow them when every inner map call is over an array (works; D1 concerns keyed inner calls)
 	DisabledMappedPipeline bool // allow a disabled modifier on a map call of a pipeline
 	InvariantInMapped bool // allow calls that do not depend on the mapped element inside map-called pipelines
 	SplitDisabledOut bool // allow "split X.out" where call X has a disabled modifier
@@ -52,6 +53,7 @@ type gen struct {
 	outTypes []Ty
 	// pipelines that contain a map call, directly or through sub-pipelines
 	hasMap map[string]bool
+	hasKeyedMap map[string]bool // pipeline (transitively) contains a map call over a typed map
 	// mapPipes[p]: the pipelines, reachable from pipeline p (p included), which
 	// directly contain a map call
 	mapPipes map[string]map[string]bool
@@ -68,7 +70,7 @@ func (g *gen) pick(n int) int { return g.t.Draw(n) }
 
 // Generate builds a random program.
 func Generate(t *Tape, cfg *GenCfg) *Prog {
-	g := &gen{t: t, cfg: cfg, p: &Prog{}, hasMap: map[string]bool{}, mapPipes: map[string]map[string]bool{}}
+	g := &gen{t: t, cfg: cfg, p: &Prog{}, hasMap: map[string]bool{}, hasKeyedMap: map[string]bool{}, mapPipes: map[string]map[string]bool{}}
 	g.prim = []string{"int", "string", "float", "bool"}
 	if cfg.Files {
 		g.p.FileTypes = []string{"txt", "json"}
@@ -508,7 +510,7 @@ func (g *gen) genPipeline(last bool) {
 			xenv = f
 		}
 		var mapKind byte
-		if g.cfg.MapCalls && g.pick(3) == 0 && (g.cfg.NestedMaps || !g.hasMap[callee]) {
+		if g.cfg.MapCalls && g.pick(3) == 0 && (g.cfg.NestedMaps || !g.hasMap[callee] || (g.cfg.NestedArrayMaps && !g.hasKeyedMap[callee])) {
 			// try to make it a map call: pick parameters to split
 			kind := byte('a')
 			if g.cfg.TypedMaps && (g.pick(3) == 0 || (g.cfg.MapBias && g.pick(3) > 0)) {
@@ -601,6 +603,9 @@ func (g *gen) genPipeline(last bool) {
 		pl.Calls = append(pl.Calls, c)
 		if c.Mapped || g.hasMap[callee] {
 			g.hasMap[pl.Name] = true
+		}
+		if (c.Mapped && mapKind == 'm') || g.hasKeyedMap[callee] {
+			g.hasKeyedMap[pl.Name] = true
 		}
 		if c.Mapped {
 			myMapPipes[pl.Name] = true
